@@ -409,6 +409,8 @@ class Gen:
             ks.append((r.random() < 0.4, ("col", q, c)))
         if r.random() < 0.2:
             e = self.num(st["cols"], 1)
+            if e[0] == "lit":
+                e = ("bin", "Add", ("col",) + r.choice([x for x in st["cols"] if not x[1].startswith("?")]), e)   # a constant is no sort key
             if e[0] == "neg":
                 # in a sort list a leading unary minus (even parenthesised) is the DIRECTION marker, not arithmetic
                 e = ("bin", "Sub", ("lit", 0), e[1])
@@ -492,7 +494,7 @@ class Gen:
         # group puts key columns first
         st["cols"] = [(None, b) for b in by] + [c for c in st["cols"] if c[1] not in by]
         return Step("group_take", "group {%s} (sort %s | take %d)" % (", ".join(by), prql_keys(ks), e_),
-                    "TGroupTake %s %s None (Some (%d))" % (coq_names(by), coq_keys(ks), e_), by=by)
+                    "TGroupTake %s %s None (Some (%d))" % (coq_names(by), coq_keys(ks), e_), by=by, keys=ks)
 
     def t_group_win(self, st):
         r = self.r
@@ -509,7 +511,7 @@ class Gen:
         st["order"] = None
         st["cols"] = [(None, b) for b in by] + [c for c in st["cols"] if c[1] not in by] + [(None, nm)]
         return Step("group_win", "group {%s} (sort %s | derive {%s = %s %s})" % (", ".join(by), prql_keys(ks), nm, WFNS[w], prql_expr(e)),
-                    "TGroupWin %s %s [(Some %d%%N, %s, %s)]" % (coq_names(by), coq_keys(ks), nid(nm), w, coq_expr(e)), by=by, fn=w)
+                    "TGroupWin %s %s [(Some %d%%N, %s, %s)]" % (coq_names(by), coq_keys(ks), nid(nm), w, coq_expr(e)), by=by, fn=w, keys=ks)
 
     def t_win(self, st):
         r = self.r
